@@ -1129,7 +1129,9 @@ def corpus(limit=400):
                     "files": {"/c02.mako": text},
                     "main": "/c02.mako",
                     "ctx": ctxj,
-                    "expected": exp[1] if exp[0] == "ok" else None,
+                    # a program with more than one admissible reading (a text filter given a non-string) has no single
+                    # reference output: the cross-path property still demands agreement between the paths
+                    "expected": exp[1] if exp[0] == "ok" and not exp[3] else None,
                     "template_kwargs": kw,
                 }
             )
